@@ -8,6 +8,7 @@ package tree
 import (
 	"fmt"
 	"net/http"
+	"slices"
 	"sync"
 
 	"github.com/issue9/errwrap"
@@ -115,6 +116,18 @@ func (tree *Tree[T]) Add(pattern string, h T, ms []types.Middleware[T], methods 
 		defer tree.locker.Unlock()
 	}
 
+	if len(methods) == 0 {
+		methods = AnyMethods
+	}
+
+	// 在修改路由树之前完成所有的验证，保证出错时不会留下任何改动。
+	if _, err := tree.interceptors.Split(pattern); err != nil { // 语法错误优先于其它错误
+		return err
+	}
+	if err := tree.checkMethods(pattern, methods); err != nil {
+		return err
+	}
+
 	n, err := tree.getNode(pattern)
 	if err != nil {
 		return err
@@ -124,10 +137,29 @@ func (tree *Tree[T]) Add(pattern string, h T, ms []types.Middleware[T], methods 
 		n.handlers = make(map[string]T, handlersSize)
 	}
 
-	if len(methods) == 0 {
-		methods = AnyMethods
-	}
 	return n.addMethods(h, pattern, ms, methods...)
+}
+
+// 检测 methods 是否都可以添加到 pattern，不会修改路由树。
+func (tree *Tree[T]) checkMethods(pattern string, methods []string) error {
+	exists := tree.Find(pattern)
+	for i, m := range methods {
+		if m == http.MethodOptions || m == http.MethodHead || (tree.hasTrace && m == http.MethodTrace) {
+			return fmt.Errorf("无法手动添加 OPTIONS/HEAD/TRACE 请求方法")
+		}
+		if _, found := methodIndexMap[m]; !found {
+			return fmt.Errorf("该请求方法 %s 不被支持", m)
+		}
+		if slices.Contains(methods[:i], m) {
+			return fmt.Errorf("该请求方法 %s 已经存在", m)
+		}
+		if exists != nil {
+			if _, found := exists.handlers[m]; found {
+				return fmt.Errorf("该请求方法 %s 已经存在", m)
+			}
+		}
+	}
+	return nil
 }
 
 func (tree *Tree[T]) checkAmbiguous(pattern string) error {
